@@ -13,8 +13,9 @@ independent oracle:
     before CPython sees the text (that is what CPython's source reader does with universal newlines).
     One completion of that oracle: an escaping backslash before a NON-ASCII character is an unrecognised escape
     by the language reference's table, but CPython gives no warning for it (see _nonascii_escape); it counts
-    as a rejection.  Octal escapes above 0o377 get CPython's "invalid octal escape sequence" SyntaxWarning and so
-    count as rejections too (obligations octal-escape/.../range=gt377; excluded from the random runs).
+    as a rejection.  Octal escapes above 0o377 are recognised escapes (the language reference: deprecated since 3.12,
+    value as before), so CPython's "invalid octal escape sequence" warning is NOT a rejection (an earlier version of
+    this oracle took it for one and reported Hy's - correct - acceptance as a finding: a false alarm, corrected).
   * where the literal ends: the first '"' preceded by an even number of consecutive backslashes (a four-line
     specification function, itself checked against CPython's tokenizer).
   * bracket strings: `str.find` of the closing sequence "]" + D + "]", one leading LF / CR / CRLF removed,
@@ -182,6 +183,8 @@ def py_literal(prefix, content, strict=True):
     else:
         with warnings.catch_warnings():
             warnings.simplefilter("error" if strict else "ignore")
+            if strict:
+                warnings.filterwarnings("ignore", message="invalid octal escape sequence")     # recognised, merely deprecated
             try:
                 v = ast.literal_eval(src)
             except SyntaxError as e:
@@ -451,8 +454,6 @@ def _w_differential(args):
     strat = st.lists(tok, max_size=12).map("".join)
     def test(s):
         k = lit_end(s + '"')
-        if "r" not in prefix and k >= 0 and has_big_octal(s[:k]):
-            return None
         return cmp_literal(prefix, s)
 
     cnt, m = _hyp_run(test, strat, n, seed_)
@@ -498,6 +499,7 @@ def _init_worker():
     run-time decoding (codecs) emits DeprecationWarning, which must stay a warning while Hy reads."""
     global _FAST
     warnings.filterwarnings("error", category=SyntaxWarning)
+    warnings.filterwarnings("ignore", message="invalid octal escape sequence", category=SyntaxWarning)     # recognised, merely deprecated
     _FAST = sys.version_info >= (3, 12)     # before 3.12 the invalid-escape warning is a DeprecationWarning
 
 
